@@ -28,7 +28,7 @@ def budget(tier):
 
 @st.composite
 def _case(draw):
-    prof = S.profile(max_methods=4, max_services=3, max_files=3, p_subpackage=0.0, p_http=0.4, p_sig=0.2, p_routing=0.05, p_paged=0.15,
+    prof = S.profile(dep_only_file=0.2, max_methods=4, max_services=3, max_files=3, p_subpackage=0.0, p_http=0.4, p_sig=0.2, p_routing=0.05, p_paged=0.15,
                      p_lro=0.15, p_stream=0.1, p_dep_io=0.05, p_comment=0.02, max_messages=5, max_fields=5, p_resource=0.35, p_map=0.25,
                      p_nested=0.5, p_recursive=0.15)
     api = draw(S.apis(prof))
@@ -37,6 +37,8 @@ def _case(draw):
     mode = draw(st.sampled_from(["omit", "omit", "omit", "internal", "internal", "invalid"]))
     kept = []
     for f in api["files"]:
+        if api.get("file_to_generate") and f["name"] not in api["file_to_generate"]:
+            continue          # dependency-only file: its services get no client and cannot be listed
         for s in f.get("services", []):
             how = draw(st.sampled_from(["all", "none", "one", "some", "some"]))
             ms = s["methods"]
